@@ -349,6 +349,17 @@ class EndToEndCost(NativeCase):
                 out_line = r['output'].strip().split('\n')[0]
                 items_out = pipeline.parse_output_block(out_line)
                 inp = dict(block=text, criterion=crit, output=out_line)
+                # the printed total is the tool's own figure of the text it wrote (one block: the total is that block)
+                m = re.search(r"Estimated gas optimized: (\d+)", r.get('stdout') or '')
+                if m:
+                    try:
+                        import sfs_generator.parser_asm as parser_asm
+                        again = parser_asm.parse_blocks_from_plain_instructions(out_line)
+                        fig = sum(b_.gas_spent for b_ in again)
+                        self.ob('printed optimized gas = gas figure of the emitted text', int(m.group(1)) == fig, inputs=inp,
+                                info="printed %s, the emitted text is priced %d by AsmBlock.gas_spent" % (m.group(1), fig))
+                    except BaseException:
+                        pass
                 if items_out == items_in:
                     continue
                 changed += 1
